@@ -231,7 +231,7 @@ def _loguniform(lo, hi):
 
 @st.composite
 def tree_st(draw, min_tips, max_tips, discrete):
-    n = draw(st.integers(min_tips, max_tips))
+    n = draw(st.sampled_from([k for k in (4, 5, 3, 6, 5, 4) if min_tips <= k <= max_tips]))
     names = draw(st.permutations(TIP_POOL))[:n]
     length = _loguniform(1e-3, 3.0)
 
@@ -306,7 +306,7 @@ def case_st(draw, family, models=None):
     ntips = len(m_tips(tree))
     cols = draw(columns_st(family, ntips, gaps_ok=not discrete))
     ncols = len(cols)
-    pi_mode = draw(st.sampled_from(["equal", "varied", "varied", "varied", "varied", "varied", "sparse", "sparse"]))
+    pi_mode = draw(st.sampled_from(["varied", "sparse", "varied", "equal", "varied", "sparse", "varied", "varied"]))
     w = [1.0] * nmp if pi_mode == "equal" else [draw(st.floats(0.05, 1.0, allow_nan=False)) for _ in range(nmp)]
     if pi_mode == "sparse":
         # some motifs get the probability the library itself assigns to unobserved motifs (about 1e-6)
@@ -635,7 +635,7 @@ KNOWN_PREDICATES = {}
 
 META = {
     "technique": "metamorphic relations between freshly built likelihood functions (column/sequence/child permutations, column repetition and appending, root placement at nodes and on edges, edge splitting), transformed trees produced by a harness tree model",
-    "level_text": "About a thousand generated likelihood problems per run over all 25 registered models (4-, 20- and 61-state), each evaluated under up to a dozen transformations with every parameter fixed; the transformed log-likelihood must equal the original (or k times it) to 1e-9 relative.",
-    "level_note": "Relations between two runs of the implementation: a defect that shifts both sides equally is invisible here (that is C02's job). Trees bounded to 6 tips, alignments to 12 motif columns (36 after repetition); rate heterogeneity only as gamma bins on nucleotide models; no multi-locus functions.",
+    "level_text": "About a thousand generated likelihood problems per run over all 25 registered models (4-, 20- and 61-state), each evaluated under about ten transformations with every parameter fixed; the transformed log-likelihood must equal the original (or k times it, or the sum for appended columns) to 1e-9 relative. Root-placement and edge-split relations are evaluated with the Pade exponentiator (1e-9) or with the default exponentiator (1e-6).",
+    "level_note": "Relations between two runs of the implementation: a defect that shifts both sides equally is invisible here (that is C02's job). Trees bounded to 6 tips, alignments to 12 motif columns (36 after repetition); rate heterogeneity only as gamma bins on nucleotide models; no multi-locus functions, no dinucleotide models.",
     "design_ref": "DESIGN.md section 1, C11",
 }
